@@ -299,6 +299,10 @@ class C14(Check):
                         del top['required']      # an empty `required` array is not a valid draft-04 schema
             case_ = {'dispatcher': draw(st.sampled_from(['sync', 'sync', 'async'])), 'validator': validator, 'flavour': flavour, 'ctx': ctx,
                      'excluded': excluded, 'coerce': draw(s_bool), 'params': params, 'top': top, 'args': args}
+            if validator == 'pydantic':
+                # model configuration handed to the validator (documented **config_args): what the generated MODEL does with unknown
+                # fields does not change which calls bind to the method's signature
+                case_['model_extra'] = [None, None, 'ignore', 'allow'][draw(s_idx) % 4]
             if excluded:
                 case_['excluded_style'] = draw(st.sampled_from(['default', 'injected']))
                 # where the excluded parameter sits: keyword-only at the end, or an ordinary parameter (with its default) between the
@@ -361,7 +365,8 @@ class C14(Check):
         params = spec['params']
         exclude_fn = (lambda name, ann, default: name.startswith('dep_')) if spec['excluded'] else None
         if spec['validator'] == 'pydantic':
-            validator: Any = vpd.PydanticValidator(coerce=spec['coerce'], exclude_param=exclude_fn)
+            config_args = {'extra': spec['model_extra']} if spec.get('model_extra') else {}
+            validator: Any = vpd.PydanticValidator(coerce=spec['coerce'], exclude_param=exclude_fn, **config_args)
             vargs: Dict[str, Any] = {}
         else:
             # validator-wide default arguments (here a permissive fallback schema): a method's own validate(...) arguments win over them
@@ -549,6 +554,8 @@ class C14(Check):
                    {'executed': 'outcome/executed', 'binding': 'outcome/refused-by-binding', 'validation': 'outcome/refused-by-validation'}[verdict]]
         if spec['validator'] == 'pydantic':
             classes.append('coerce/on' if spec['coerce'] else 'coerce/off')
+            if spec.get('model_extra'):
+                classes.append(f"pydantic/model-config-extra-{spec['model_extra']}")
         if spec.get('validator_default_schema'):
             classes.append('jsonschema/validator-wide-default-schema')
         if '$schema' in spec.get('top', {}):
